@@ -321,7 +321,9 @@ func rulesFrom(m trafficControllerMap) []*Rule {
 	return rules
 }
 
-func calculateReuseIndexFor(r *Rule, oldResTcs []TrafficShapingController) (equalIdx, reuseStatIdx int) {
+// laterRules are the rules that follow r in the list being loaded: an old controller that is equivalent to one of
+// them is going to be kept for that rule and must not lend its statistic to r.
+func calculateReuseIndexFor(r *Rule, oldResTcs []TrafficShapingController, laterRules []*Rule) (equalIdx, reuseStatIdx int) {
 	// the index of equivalent rule in old traffic shaping controller slice
 	equalIdx = -1
 	// the index of statistic reusable rule in old traffic shaping controller slice
@@ -338,6 +340,16 @@ func calculateReuseIndexFor(r *Rule, oldResTcs []TrafficShapingController) (equa
 		if !oldRule.IsStatReusable(r) {
 			continue
 		}
+		reserved := false
+		for _, later := range laterRules {
+			if later != nil && oldRule.Equals(later) {
+				reserved = true
+				break
+			}
+		}
+		if reserved {
+			continue
+		}
 		if reuseStatIdx >= 0 {
 			// had find reuse rule.
 			continue
@@ -350,13 +362,13 @@ func calculateReuseIndexFor(r *Rule, oldResTcs []TrafficShapingController) (equa
 // buildResourceTrafficShapingController builds TrafficShapingController slice from rules. the resource of rules must be equals to res.
 func buildResourceTrafficShapingController(res string, resRules []*Rule, oldResTcs []TrafficShapingController) []TrafficShapingController {
 	newTcsOfRes := make([]TrafficShapingController, 0, len(resRules))
-	for _, rule := range resRules {
+	for i, rule := range resRules {
 		if res != rule.Resource {
 			logging.Error(errors.Errorf("unmatched resource name, expect: %s, actual: %s", res, rule.Resource), "Unmatched resource name in hotspot.buildResourceTrafficShapingController()", "rule", rule)
 			continue
 		}
 
-		equalIdx, reuseStatIdx := calculateReuseIndexFor(rule, oldResTcs)
+		equalIdx, reuseStatIdx := calculateReuseIndexFor(rule, oldResTcs, resRules[i+1:])
 		// there is equivalent rule in old traffic shaping controller slice
 		if equalIdx >= 0 {
 			equalOldTC := oldResTcs[equalIdx]
